@@ -65,6 +65,12 @@ def violations_of(R, text):
         if idxs:
             i = R.choice(idxs)
             add(name, text[:i] + rep + text[i + len(pat):])
+    # the other quote escaped inside a string literal
+    for q_, other in (("'", '"'), ('"', "'")):
+        idxs = [i for i in range(n) if text[i] == q_]
+        if idxs:
+            i = idxs[0]   # an opening quote (the first quote character of that kind)
+            add("other-quote-escaped", text[:i + 1] + "\\" + other + text[i + 1:])
     # numbers: leading zeros, -0 index, malformed frac/exp
     import re
     nums = [(m.start(), m.end()) for m in re.finditer(r"-?[0-9]+", text)]
